@@ -34,6 +34,7 @@ def describe(ck):
     ck.rule("R09d", "'not given' is a negative constant from init_param to aln_param_init: option table, "
                     "option cases, and same-named arguments sit in same-named parameter positions")
     ck.rule("R09e", "documented DNA numbers: match/mismatch/gpo/gpe/tgpe of dna and internal equal README's list")
+    ck.rule("R09j", "every setter fills a full square of the substitution matrix starting at code 0, of the same size as its sibling setters of the same kind")
     ck.rule("R09i", "every per-type parameter setter assigns gpo, gpe and tgpe (the object is malloc'ed): sibling setters agree")
     ck.rule("R09f", "set_gap_penalties_n copies each base penalty column (55/56/57) into the column of the same kind the kernels read (27/28/29) on every path, border column and column loop")
     ck.rule("R09g", "make_profile_n stores the negated penalty of the matching kind into every gap column (23/24/25 mod 32)")
@@ -703,6 +704,50 @@ def r09e(ck, prog):
                              diag, off, README_DNA["match"], README_DNA["mismatch"]), prog.config)
 
 
+# --------------------------------------------------------------------------- R09j: the matrix covers the alphabet
+def r09j(ck, prog):
+    """the substitution matrix a setter fills covers every pair of codes its alphabet can produce: the nucleotide setters fill
+    the same square of cells (sibling agreement), of the size of the nucleotide alphabet (codes 0..L-1 from the evaluated
+    alphabet), and the protein setters the square of the protein alphabet - a letter whose row the setter skips would be
+    scored with whatever the zero-initialisation left"""
+    from ..consteval import alphabet_tables
+    A = prog.fn("aln_param_init")
+    sizes = {}
+    for name in sorted({c.callee for c in A.body.calls() if c.callee and c.callee.startswith("set_subm_gaps")}):
+        r = eval_setter(prog, name)
+        if r is None:
+            raise AnalysisBroken("R09j: %s could not be evaluated as input-free code" % name)
+        pen, m, UNDEF = r
+        rows = [i for i in range(23) if any(m[i][j] is not UNDEF for j in range(23))]
+        cols = [j for j in range(23) if any(m[i][j] is not UNDEF for i in range(23))]
+        holes = [(i, j) for i in rows for j in cols if m[i][j] is UNDEF]
+        sizes[name] = (len(rows), len(cols), holes)
+        ck.inst("R09j", site(prog, prog.fn(name), "matrix"), "%s fills a %d x %d block of the matrix%s" % (name, len(rows), len(cols), ", with holes" if holes else ""), prog.config)
+        if holes or rows != list(range(len(rows))) or cols != list(range(len(cols))) or len(rows) != len(cols):
+            ck.violation("R09j", "R09j/%s/shape" % name, site(prog, prog.fn(name), "matrix"),
+                         "%s fills rows %s / columns %s%s: not a full square starting at code 0" % (name, rows[:6], cols[:6], ", holes at %s" % holes[:3] if holes else ""), prog.config)
+    try:
+        tabs = alphabet_tables(prog)
+    except Exception as e:
+        raise AnalysisBroken("R09j: alphabets not evaluated (%s)" % e)
+
+    def ncodes(aname):
+        t = tabs.get(aname)
+        if not t or t.get("to_internal") is None:
+            raise AnalysisBroken("R09j: alphabet %s not evaluated (%s)" % (aname, t and t.get("error")))
+        return max(v for v in t["to_internal"] if isinstance(v, int) and v >= 0) + 1
+    need = {"nucleotide": ncodes("ALPHA_defDNA"), "protein": ncodes("ALPHA_ambigiousPROTEIN")}
+    groups = {"nucleotide": [n_ for n_ in sizes if "DNA" in n_ or "RNA" in n_], "protein": [n_ for n_ in sizes if "DNA" not in n_ and "RNA" not in n_]}
+    for kind, names in groups.items():
+        for n_ in names:
+            ck.inst("R09j", site(prog, prog.fn(n_), "coverage"), "%s: %d codes filled, the %s alphabet produces codes 0..%d" % (n_, sizes[n_][0], kind, need[kind] - 1), prog.config)
+            if sizes[n_][0] < need[kind]:
+                ck.violation("R09j", "R09j/%s/size" % n_, site(prog, prog.fn(n_), "matrix"),
+                             "%s fills a %d x %d block but the %s alphabet produces the codes 0..%d: the scores of code(s) %d..%d (N and the "
+                             "ambiguity letters merged into it, for nucleotides) are left at the zero initialisation for this type" % (
+                                 n_, sizes[n_][0], sizes[n_][1], kind, need[kind] - 1, sizes[n_][0], need[kind] - 1), prog.config)
+
+
 # --------------------------------------------------------------------------- R09i: every parameter setter is complete
 def r09i(ck, prog):
     """the parameter object is allocated with malloc: every per-type setter aln_param_init can dispatch to assigns all three
@@ -927,6 +972,7 @@ def run(ck, progs):
         ck.attempt(r09g, ck, prog)
         ck.attempt(r09h, ck, prog)
         ck.attempt(r09i, ck, prog)
+        ck.attempt(r09j, ck, prog)
     return ("Static rules over the resolved AST of aln_param.c, run_kalign.c, parameters.c and kalign.h: "
             "(guard variable, source variable, target field) triples of the three overrides; the (sequence kind x "
             "type constant) table of both switch statements with fallthrough and default followed; the ordered "
